@@ -3,6 +3,7 @@
 import os, sys
 sys.path.insert(0, os.path.dirname(os.path.abspath(__file__)))
 import gen_c02
+import gen_c03
 here = os.path.dirname(os.path.abspath(__file__))
 # quick tier only needs the skeletons up to length 3 (keeps the crate small and the build fast)
 maxlen = 5 if os.environ.get("VERIF_GEN_TIER", "thorough") == "thorough" else 3
@@ -14,3 +15,11 @@ if not os.path.exists(target) or open(target).read() != open(tmp).read():
     os.replace(tmp, target)
 else:
     os.remove(tmp)
+
+t3 = os.path.join(here, "src", "gen_c03.rs")
+tmp3 = t3 + ".tmp"
+gen_c03.generate(tmp3, 4 if os.environ.get("VERIF_GEN_TIER", "thorough") == "thorough" else 3)
+if not os.path.exists(t3) or open(t3).read() != open(tmp3).read():
+    os.replace(tmp3, t3)
+else:
+    os.remove(tmp3)
